@@ -113,6 +113,9 @@ fn compile_oracle(kind: &str, format: Format, game: Game, maps: &[MapArg], text:
     match r {
         Ok(n) => if err_diag {
             fail(format!("success-after-error-diagnostic {}", format.name()), format!("{kind} {} {game}: compile returned Ok after printing: {} | input: {}", format.name(), diags.lines().next().unwrap_or(""), excerpt(text)))
+        } else if kind.starts_with("repaired-") {
+            // the minimised input of a repaired finding: it has to be diagnosed, not compiled
+            fail(format!("repaired-finding-input-compiles-silently {kind}"), format!("{} {game}: compile returned Ok without any error diagnostic | input: {}", format.name(), excerpt(text)))
         } else { app("ok", vec![int(n as i64)]) },
         Err(()) => if !err_diag {
             fail("failure-without-error-diagnostic", format!("{kind} {} {game}: compile returned Err, diagnostics: {:?} | input: {}", format.name(), diags.lines().next().unwrap_or(""), excerpt(text)))
@@ -123,7 +126,7 @@ fn compile_oracle(kind: &str, format: Format, game: Game, maps: &[MapArg], text:
 const CLI_TIMEOUT_SECS: u64 = 40;
 
 /// the very entry point the user runs, in a fresh process: exit status against stderr
-fn cli_oracle(format: Format, game: Game, maps: &[MapArg], text: &[u8]) -> Sexp {
+fn cli_oracle(kind: &str, format: Format, game: Game, maps: &[MapArg], text: &[u8]) -> Sexp {
     let dir = tempfile::tempdir().expect("tempdir");
     let inp = dir.path().join("in.txt");
     std::fs::write(&inp, text).expect("write");
@@ -168,6 +171,7 @@ fn cli_oracle(format: Format, game: Game, maps: &[MapArg], text: &[u8]) -> Sexp 
         return app("panic", vec![Sexp::str(site), Sexp::str(msg)]);
     }
     match code {
+        Some(0) if kind.starts_with("repaired-") => fail(format!("repaired-finding-input-compiles-silently {kind}"), format!("{tool} {game} (CLI): exit status 0 | input: {}", excerpt(text))),
         Some(0) => if has_error(&stderr) { fail(format!("success-after-error-diagnostic {}", format.name()), format!("{tool} {game} (CLI, exit status 0): {} | input: {}", stderr.lines().next().unwrap_or(""), excerpt(text))) } else { app("exit", vec![int(0)]) },
         Some(1) => if !has_error(&stderr) { fail("failure-without-error-diagnostic", format!("{tool} {game} (CLI, exit status 1): stderr {:?} | input: {}", stderr.lines().next().unwrap_or(""), excerpt(text))) } else { app("exit", vec![int(1), Sexp::str(first_class(&stderr))]) },
         Some(c) => fail(format!("cli-abnormal-exit code {c}"), format!("{tool} {game}: status {} stderr tail {:?} | input: {}", out.status, stderr.lines().last().unwrap_or(""), excerpt(text))),
@@ -241,9 +245,7 @@ pub fn expr_in_context(format: Format, game: Game, ctx: &str, e: &str, ty: char)
             Format::Std => format!("{}", std_meta(game).replace("unknown: 0", &format!("unknown: {e}"))) + "script main { }\n",
             Format::Msg | Format::End => format!("meta {{ table: {{0: {{script: \"script0\", flags: {e}}}, {e}: {{script: \"script0\"}}}}, table_len: {e} }}\nscript script0 {{ }}\n"),
             Format::Mission => format!("entry {{ stage: {e}, scene: {e}, face: {e}, point: {e}, text: [\"a\", \"b\", \"c\"] }}\n"),
-            // an old-ECL timeline index in 10^5..2^32 runs for minutes to hours and allocates GBs (known finding,
-            // it has its own case): such literals go into a sub body instead
-            Format::Ecl => if huge_number_in(e) { format!("script timeline0 {{ }}\nvoid sub0() {{ ins_0({e}); }}\n") } else { format!("script {e} timeline0 {{ }}\nvoid sub0() {{ }}\n") },
+            Format::Ecl => format!("script {e} timeline0 {{ }}\nvoid sub0() {{ }}\n"),
         },
         _ /* "arg" | "timeline-arg" */ => match ins_with_param(format, game, timeline, ty) {
             Some((op, i, n)) => {
@@ -253,18 +255,6 @@ pub fn expr_in_context(format: Format, game: Game, ctx: &str, e: &str, ty: char)
             None => format!("{head}    ins_0({e});\n{tail}"),
         },
     }
-}
-fn huge_number_in(e: &str) -> bool {
-    let mut cur = String::new();
-    let mut found = false;
-    let mut check = |cur: &mut String| { if !cur.is_empty() {
-        let v = if let Some(h) = cur.strip_prefix("0x").or_else(|| cur.strip_prefix("0X")) { u64::from_str_radix(h, 16).ok() } else if let Some(b) = cur.strip_prefix("0b").or_else(|| cur.strip_prefix("0B")) { u64::from_str_radix(b, 2).ok() } else { cur.parse::<u64>().ok() };
-        if let Some(v) = v { if (100_000..(1u64 << 32)).contains(&v) { found = true; } }
-        cur.clear();
-    } };
-    for c in e.chars() { if c.is_ascii_alphanumeric() { cur.push(c); } else { check(&mut cur); } }
-    check(&mut cur);
-    found
 }
 pub const EXPR_CONTEXTS: &[&str] = &["const", "timelabel", "interrupt", "assign", "local", "cond", "meta", "arg", "timeline-arg"];
 
@@ -1168,7 +1158,7 @@ impl Prop for C04 {
         }
         let very_deep: &[&str] = if tier == Tier::Quick { &["binop-left@assign", "block"] } else { &["parens@const", "binop-left@assign", "block", "elseif-chain", "constchain", "long-string", "meta-object", "long-ident", "long-line", "comment-open", "many-stmts"] };
         for kind in very_deep { out.push(nest_case(kind, 200_000, Format::Anm, Game::Th12)); }
-        // a mission file with code in it
+        // a mission file with code in it (diagnosed since 444d0fd)
         for game in [Game::Th095, Game::Th125] {
             let (head, _) = skeleton(Format::Mission, game, false);
             for body in ["script s { ins_0(); }", "script s { }", "const int x = REG[1];", "const int x = ins_1();", "void f() { }", "script s { $REG[1] = 1; }", "script s { int x = 1; }", "script s { +1: }", "meta { }"] {
@@ -1232,24 +1222,43 @@ impl Prop for C04 {
             out.push(compile_case("format-x-game", format, game, &[], b""));
         } }
 
-        out.push(Case::search(app("cli", vec![atom("ecl"), atom("th06"), Sexp::list(vec![]), atom(&hex(b"script 2147483647 timeline0 { }\nvoid sub0() { }\n")), atom("timeline-index-huge")])).tag("cli").tag("timeline-index-huge"));
 
-        // (5b) the minimised inputs of the findings made so far (kept as regression inputs, both tiers)
+        // (5b) the minimised inputs of the findings made so far, in both tiers.  `repaired-*`: defects repaired in
+        // /repo (3adbf40, 444d0fd, 5d14a8f, cc73b92, b5d9cfe, 777aa25, c4ddfe9): each must now end in failure with an
+        // error diagnostic; a panic, a timeout or a silent success on them is reported again.  `finding-*`: still open.
         let anm_ok = format!("{ANM_ENTRY}script script0 {{ }}\n");
+        let std08 = "meta { unknown: 0, stage_name: \"dm\", bgm: [{path: \" \", name: \" \"}, {path: \" \", name: \" \"}, {path: \" \", name: \" \"}, {path: \" \", name: \" \"}], objects: {}, instances: [] }\nscript main { }\n";
+        let mission095 = "entry { stage: 1, scene: 1, face: 0, point: 0, text: [\"a\", \"b\", \"c\"] }\n";
         for (kind, format, game, map, text) in [
-            ("finding-mapfile-key-overflow", Format::Anm, Game::Th12, Some("!anmmap\n!ins_names\n99999999999 foo\n"), anm_ok.as_str()),
-            ("finding-mapfile-key-overflow", Format::Std, Game::Th08, Some("!stdmap\n!gvar_names\n-2147483649 foo\n"), "meta { unknown: 0, stage_name: \"dm\", bgm: [{path: \" \", name: \" \"}, {path: \" \", name: \" \"}, {path: \" \", name: \" \"}, {path: \" \", name: \" \"}], objects: {}, instances: [] }\nscript main { }\n"),
-            ("finding-mission-with-code", Format::Mission, Game::Th095, None, "entry { stage: 1, scene: 1, face: 0, point: 0, text: [\"a\", \"b\", \"c\"] }\nscript s { ins_0(); }\n"),
-            ("finding-ending-th125", Format::End, Game::Th125, None, ""),
-            ("finding-ending-th125", Format::End, Game::Th095, None, "meta { table: {0: {script: \"script0\"}} }\nscript script0 { }\n"),
-            ("finding-anm-img-width", Format::Anm, Game::Th08, None, "entry { path: \"a.png\", has_data: false, img_width: 2147483649, img_height: 16, img_format: 3, sprites: {} }\nscript script0 { }\n"),
-            ("finding-modern-ecl-errors-dropped", Format::Ecl, Game::Th15, None, "script timeline0 { }\nvoid sub0() {\n}\n"),
-            ("finding-builtin-enum-clash", Format::Anm, Game::Th12, Some("!anmmap\n!enum(name=\"bool\")\n900 true\n"), anm_ok.as_str()),
-            ("finding-msg-table-len", Format::Msg, Game::Th12, None, "meta { table: {0: {script: \"script0\"}}, table_len: 2147483647 }\nscript script0 { }\n"),
-            ("finding-msg-table-len", Format::End, Game::Th12, None, "meta { table: {2147483647: {script: \"script0\"}} }\nscript script0 { }\n"),
+            ("repaired-mapfile-key-overflow", Format::Anm, Game::Th12, Some("!anmmap\n!ins_names\n99999999999 foo\n"), anm_ok.clone()),
+            ("repaired-mapfile-key-overflow", Format::Std, Game::Th08, Some("!stdmap\n!gvar_names\n-2147483649 foo\n"), std08.to_string()),
+            ("repaired-mapfile-key-overflow", Format::Msg, Game::Th08, Some("!msgmap\n!ins_signatures\n2147483648 S\n"), "meta { table: {0: {script: \"script0\"}} }\nscript script0 { }\n".to_string()),
+            ("repaired-mission-with-code", Format::Mission, Game::Th095, None, format!("{mission095}script s {{ ins_0(); }}\n")),
+            ("repaired-mission-with-code", Format::Mission, Game::Th095, None, format!("{mission095}const int x = REG[1];\n")),
+            ("repaired-mission-with-code", Format::Mission, Game::Th095, None, format!("{mission095}const int x = ins_1();\n")),
+            ("repaired-mission-with-code", Format::Mission, Game::Th125, None, "void f() { }\n".to_string()),
+            ("repaired-ending-th125", Format::End, Game::Th125, None, String::new()),
+            ("repaired-ending-th125", Format::End, Game::Th095, None, "meta { table: {0: {script: \"script0\"}} }\nscript script0 { }\n".to_string()),
+            ("repaired-anm-img-width", Format::Anm, Game::Th08, None, "entry { path: \"a.png\", has_data: false, img_width: 2147483649, img_height: 16, img_format: 3, sprites: {} }\nscript script0 { }\n".to_string()),
+            ("repaired-anm-img-width", Format::Anm, Game::Th12, None, "entry { path: \"a.png\", has_data: false, img_width: 16, img_height: 4294967295, img_format: 3, sprites: {} }\nscript script0 { }\n".to_string()),
+            ("repaired-modern-ecl-errors-dropped", Format::Ecl, Game::Th15, None, "script timeline0 { }\nvoid sub0() {\n}\n".to_string()),
+            ("repaired-modern-ecl-errors-dropped", Format::Ecl, Game::Th143, None, "const int f() { return 1; }\nvoid sub0() {\n}\n".to_string()),
+            ("repaired-modern-ecl-errors-dropped", Format::Ecl, Game::Alcostg, None, mission095.to_string()),
+            ("repaired-timeline-index-huge", Format::Ecl, Game::Th06, None, "script 2147483647 timeline0 { }\nvoid sub0() { }\n".to_string()),
+            ("repaired-timeline-index-huge", Format::Ecl, Game::Th09, None, "script -2147483649 timeline0 { }\nvoid sub0() { }\n".to_string()),
+            ("repaired-timeline-index-huge", Format::Ecl, Game::Th07, None, "script 20000000 timeline0 { }\nscript 20000000 timeline1 { }\nvoid sub0() { }\n".to_string()),
+            ("repaired-builtin-enum-clash", Format::Anm, Game::Th12, Some("!anmmap\n!enum(name=\"bool\")\n900 true\n"), anm_ok.clone()),
+            ("repaired-builtin-enum-clash", Format::Msg, Game::Th10, Some("!msgmap\n!enum(name=\"bool\")\n5 false\n7 true\n"), "meta { table: {0: {script: \"script0\"}} }\nscript script0 { }\n".to_string()),
+            ("finding-sub-call-in-timeline", Format::Ecl, Game::Th08, None, "script timeline0 {\n    sub0();\n}\nvoid sub0() { }\n".to_string()),
+            ("finding-msg-table-len", Format::Msg, Game::Th12, None, "meta { table: {0: {script: \"script0\"}}, table_len: 2147483647 }\nscript script0 { }\n".to_string()),
+            ("finding-msg-table-len", Format::End, Game::Th12, None, "meta { table: {2147483647: {script: \"script0\"}} }\nscript script0 { }\n".to_string()),
         ] {
             let maps: Vec<MapArg> = map.iter().map(|m| MapArg::Load(m.as_bytes().to_vec())).collect();
             out.push(compile_case(kind, format, game, &maps, text.as_bytes()));
+            // and through the real CLI entry point (exit status)
+            if kind.starts_with("repaired-") {
+                out.push(Case::search(app("cli", vec![atom(format.name()), atom(&format!("{game}")), maps_sexp(&maps), atom(&hex(text.as_bytes())), atom(kind)])).tag("cli").tag(kind));
+            }
         }
 
         // (6) the real CLI entry point in a fresh process (exit status): a sample of everything above
@@ -1287,7 +1296,7 @@ impl C04 {
                 let text = nest_text(a[0].as_atom(), a[1].as_usize(), format, game);
                 compile_oracle(a[0].as_atom(), format, game, &[], text.as_bytes())
             },
-            Some("cli") => cli_oracle(Format::from_name(a[0].as_atom()), tc::game(a[1].as_atom()), &maps_from(&a[2]), &unhex(a[3].as_atom())),
+            Some("cli") => cli_oracle(a.get(4).map(|k| k.as_atom()).unwrap_or("cli"), Format::from_name(a[0].as_atom()), tc::game(a[1].as_atom()), &maps_from(&a[2]), &unhex(a[3].as_atom())),
             Some("sites") => eval_sites(),
             Some("trace") => eval_trace(case),
             Some("spans") => eval_spans(case),
